@@ -312,6 +312,20 @@ func c20Systematic(tier string) []*Case {
 			out = append(out, c20Case(sess, []sim.Config{withDelivery(replCfg(c20SessionStdin(ls)), "all")}, []string{"all"}, "misuse"))
 		}
 	}
+	// lines that exhaust a resource of the host (unbounded recursion): a failing line
+	// may not end the session. Run in a process of their own, because what they
+	// provoke on a tree without a guard (a Go stack overflow) cannot be recovered.
+	for _, l := range []c20Line{
+		{"rt-unbounded-recursion", "rt-recursion", KwFun + " f() { " + KwReturn + " f(); } f();"},
+		{"rt-unbounded-mutual-recursion", "rt-recursion", KwFun + " a(n) { " + KwReturn + " b(n + 1); } " + KwFun + " b(n) { " + KwReturn + " a(n) + 1; } a(0);"},
+		{"rt-unbounded-recursion-in-args", "rt-recursion", KwFun + " g(x) { " + KwReturn + " g([x, g(x)]); } " + KwPrint + " g(1);"},
+	} {
+		cfg := replCfg(c20SessionStdin([]string{l.text, KwPrint + " 1 + 2;"}))
+		cfg.Budget = 400000000
+		cs := &Case{Prop: "C20", Kind: "survive", Sig: "by:" + l.name, Program: l.text, Runs: []Run{{Role: "fresh-process:session", Cfg: cfg}}}
+		cs.Aux = &Aux{C20: &C20Expect{Lines: []string{l.text}}}
+		out = append(out, cs)
+	}
 	// echo
 	for _, e := range c20Echo {
 		cs := &Case{Prop: "C20", Kind: "echo", Sig: "echo:" + e, Program: e + ";"}
@@ -504,6 +518,26 @@ func c20Eval(cs *Case, ctx *EvalCtx) []Violation {
 	var vs []Violation
 	add := func(run int, class, sig, msg string) {
 		vs = append(vs, Violation{Prop: "C20", Class: "C20/" + class, Sig: sig, Msg: msg, Run: run})
+	}
+	if cs.Kind == "survive" {
+		o := obs[0]
+		_, found, _ := c20Split(o.Res, 2)
+		switch {
+		case o.Res.Panic != "":
+			add(0, "session-ended", cs.Sig, fmt.Sprintf("line %q killed the interpreter: %s", clip(ax.Lines[0]), o.Res.Panic))
+		case o.Res.Budget:
+			add(0, "never-returns", cs.Sig, "step budget exceeded")
+		case !found[0] || !found[1]:
+			add(0, "session-ended", cs.Sig, fmt.Sprintf("after line %q the later lines got no response (stdout=%q)", clip(ax.Lines[0]), clip(o.Stdout)))
+		case !strings.Contains(o.Stdout, "3\n"):
+			add(0, "response-differs", cs.Sig, fmt.Sprintf("the line after it must answer 3: stdout=%q", clip(o.Stdout)))
+		case o.ExitStatus() != 0:
+			add(0, "exit-status", cs.Sig, fmt.Sprintf("end of input must end the session with status 0, got %d", o.ExitStatus()))
+		}
+		if ctx.Stats != nil {
+			ctx.Stats.Count("reach.resource_exhausting_line", 1)
+		}
+		return vs
 	}
 	if cs.Kind == "eof" {
 		o := obs[0]
